@@ -45,6 +45,7 @@ HARNESS_FILES = {
     "lpc_c07.rs": ("src/lpc.rs", "verif_c07"),
     "coding_c07.rs": ("src/coding.rs", "verif_c07"),
     "coding_c13.rs": ("src/coding.rs", "verif_c13"),
+    "source_drv.rs": ("src/source.rs", "verif_drv"),
     "bitrepr_sub.rs": ("src/component/bitrepr.rs", "verif_sub"),
     "bitrepr_c12.rs": ("src/component/bitrepr.rs", "verif_c12"),
 }
